@@ -191,6 +191,27 @@ def conv_record(vec, n):
     return rec
 
 
+def ints_record(rng, n, count):
+    """The list wrappers bvectors_to_ints / ints_to_bvectors on MANY vectors (what
+    panqec.io stores for the effective errors of a long run), also beyond 31 and 63
+    bits: every integer is exported as its binary expansion (most significant bit
+    first, 2n digits) so that TLC compares digit by digit - no machine integers."""
+    vs = [(rng.random(2 * n) < 0.5).astype(np.uint8) for _ in range(count)]
+    vs[0][:] = 1
+    if count > 2:
+        vs[1][:] = 0
+        vs[2][:] = 0
+        vs[2][0] = 1                       # only the leading digit
+    ints = bpauli.bvectors_to_ints([list(map(int, v)) for v in vs] if n % 2 else vs)
+    digits = []
+    for x in ints:
+        x = int(x)
+        digits.append([int(c) for c in format(x, 'b').zfill(2 * n)] if 0 <= x < 4 ** n else [])
+    back = bpauli.ints_to_bvectors([int(x) for x in ints], n)
+    return {'kind': 'ints', 'n': n, 'vecs': [[int(b) for b in v] for v in vs], 'digits': digits,
+            'back': [[int(b) % 2 for b in np.asarray(b_).ravel()] for b_ in back]}
+
+
 def rank_record(rng, rows, cols, dens):
     M = (rng.random((rows, cols)) < dens).astype(np.uint8)
     if rows > 2 and rng.random() < 0.5:
@@ -276,6 +297,10 @@ def run(tier):
         for _ in range(count):
             dens = rng.choice([0.05, 0.5, 0.95])
             recs.append(conv_record((rng.random(2 * n) < dens).astype(np.uint8), n))
+    # the list wrappers on long lists, around 31 / 32 / 63 / 64 bits and beyond
+    for n in (1, 3, 8, 15, 16, 31, 32, 33, 40):
+        for cnt in ((1, 101) if tier == 'quick' else (1, 5, 100, 101, 1500)):
+            recs.append(ints_record(rng, n, cnt))
     for _ in range(count * 3):
         recs.append(rank_record(rng, int(rng.integers(1, 14)),
                                 int(rng.integers(1, 28)), rng.choice([0.1, 0.5, 0.9])))
